@@ -40,7 +40,7 @@ theorem IN_3D_fdf_row6 (i : IN_3D_fdf_In K)
   generalize i.nu * i.young / ((1 + i.nu) * (1 - 2 * i.nu)) = l at hl hmax hq hw ⊢
   generalize i.young / (2 * (1 + i.nu)) = m at hm hmax hq hw ⊢
   simp only [hmax]
-  simp only [Derivation.leibniz_div, Derivation.leibniz, map_add, map_sub, map_neg, map_zero, hsqrt, hpow, D_ofNat, d1, hl, hm, hth, hdt,
+  simp only [Derivation.leibniz_div, Derivation.leibniz, map_add, map_sub, map_neg, map_zero, hsqrt, hpow, D_ofNat, d1, d2, d3, hl, hm, hth, hdt,
     he0, he1, he2, he3, he4, he5, smul_eq_mul, mul_zero, zero_mul, add_zero, zero_add, mul_one, one_mul, sub_zero, zero_sub, zero_div, neg_zero]
   simp only [hq] at hw ⊢
   simp only [hw]
